@@ -172,7 +172,7 @@ PIPE_TRUSTED = LIST_TRUSTED + [
     "list comprehensions [f(x) for x in xs] and zip(xs, ys[, strict=True]) loops: element-wise over the list model",
     "dynamic dispatch: a member overridden in a subclass is resolved by the object's class (class map); references declared exact (constructor results, output assemblies) are not dispatched",
     "a generator method under an `as_list` contract is the list of what it yields (scaffolds_fused_by_name); statement postconditions are proved where they stand and used from there on (cut)",
-    "ASSUMED call-site effects (not derived from the bodies): ScaffoldNamer.make_scaffold_name only reads the scaffold it is given, sets name / rank / haplotype state and starts an empty unloc list; Scaffold.fragment_tags returns a new set; ChrNamer.add_scaffold / add_chr_prefix / name_chromosomes change nothing but scaffold names; AssemblyStats.make_stats changes only the statistics object; Assembly.smart_sort_scaffolds permutes the scaffold list in place",
+    "ASSUMED call-site effects (not derived from the bodies): ScaffoldNamer.make_scaffold_name only reads the scaffold it is given, sets name / rank / haplotype state and starts an empty unloc list; Scaffold.fragment_tags returns a new set; ChrNamer.add_chr_prefix / name_chromosomes change nothing but scaffold names (ChrNamer.__init__ and add_scaffold are under contract: frame proved); AssemblyStats.make_stats changes only the statistics object; Assembly.smart_sort_scaffolds permutes the scaffold list in place",
 ]
 PIPE_NOTE = ("Under contract from the pipeline (each per piece / per row / per fused scaffold, i.e. as a postcondition of one loop iteration): find_overlaps, trimming and cutting, "
              "store_fragments_found, add_overhang_premise and the premise what-ifs, scaffolds_fused_by_name, assemblies_with_scaffolds_fused, add_missing_scaffolds_from_input, rename_by_size, label_scaffold. "
@@ -226,7 +226,7 @@ PROPS["C08"] = {
 PROPS["C09"] = {
     "level": "other",
     "technique": "deductive verification of ScaffoldNamer.label_scaffold (decision table of destination tags, rank, haplotype) and of the routing loop of BuildAssembly.assemblies_with_scaffolds_fused (per fused scaffold: destination assembly and its curated flag) + bounded routing oracle per piece over tagged PretextView-model maps, down to the files the CLI writes",
-    "level_text": "Proved: label_scaffold tags a piece FalseDuplicate, Haplotig or Contaminant exactly as its own tags say (in that precedence), tags it Contaminant in Target mode when the Pretext scaffold has no Target tag, gives such pieces rank 3, leaves other pieces untagged with the scaffold's rank, and records the current haplotype; assemblies_with_scaffolds_fused puts every fused scaffold into exactly one output assembly - the assembly of its destination tag if it has one (created not curated), otherwise of its haplotype, otherwise the primary one (both created curated) - appends it there, reuses an assembly that already exists and leaves the other assemblies and all curated flags alone (per iteration of the routing loop; the list of fused scaffolds, ChrNamer and the statistics are opaque there). Bounded: fusion by (tag, haplotype - for untagged pieces only -, name), the file names the CLI derives from the curated flag, Target-mode treatment of sequence absent from the map, name-derived haplotypes. Known findings: C09-name-derived-haplotype, C09-haplotype-prefix-name-shape.",
+    "level_text": "Proved: label_scaffold tags a piece FalseDuplicate, Haplotig or Contaminant exactly as its own tags say (in that precedence), tags it Contaminant in Target mode when the Pretext scaffold has no Target tag, gives such pieces rank 3, leaves other pieces untagged with the scaffold's rank, and records the current haplotype; assemblies_with_scaffolds_fused puts every fused scaffold into exactly one output assembly - the assembly of its destination tag if it has one (created not curated), otherwise of its haplotype, otherwise the primary one (both created curated) - appends it there, reuses an assembly that already exists and leaves the other assemblies and all curated flags alone (per iteration of the routing loop; the list of fused scaffolds, the chromosome naming of ChrNamer and the statistics are opaque there; that ChrNamer.add_scaffold writes only the namer's own books - a list and a dictionary made by this call - is proved, not assumed). Bounded: fusion by (tag, haplotype - for untagged pieces only -, name), the file names the CLI derives from the curated flag, Target-mode treatment of sequence absent from the map, name-derived haplotypes. Known findings: C09-name-derived-haplotype, C09-haplotype-prefix-name-shape.",
     "level_note": PIPE_NOTE,
     "lemmas": [],
     "bounded": [("bounded.c09", {})],
@@ -237,7 +237,7 @@ PROPS["C09"] = {
 PROPS["C10"] = {
     "level": "other",
     "technique": "deductive verification of the name counters, of ScaffoldNamer.rename_by_size (names redistributed by non-increasing length) and of the output sort key (rank, natural key) + bounded naming/ordering/CSV oracle over tagged maps",
-    "level_text": "Proved: haplotig and unloc names are taken from strictly increasing counters (each number used once), the output order key is (rank, natural name key) with rank first (C20 contracts), label_scaffold assigns rank 3 to special pieces; rename_by_size hands the k-th name (in order of appearance) to the k-th longest scaffold of the list - lengths as Scaffold.length / OverlapResult.length report them at that moment, dispatched on the object's class - and changes nothing but names; the configured chromosome prefix is handed by the autosome_prefix setter to both of its users (the namer that builds <prefix>n and the statistics object that writes the CSV) and to nothing else, and the getter returns the namer's copy. Bounded: when rename_by_size is called relative to cuts (known finding), uniqueness of names per assembly, chromosome numbering by size without holes, unloc/haplotig ranking, CSV. Known findings: C10-unloc-rank-precut-length, C10-unloc-number-hole, C10-unloc-only-chromosome-csv.",
+    "level_text": "Proved: haplotig and unloc names are taken from strictly increasing counters (each number used once), the output order key is (rank, natural name key) with rank first (C20 contracts), label_scaffold assigns rank 3 to special pieces; rename_by_size hands the k-th name (in order of appearance) to the k-th longest scaffold of the list - lengths as Scaffold.length / OverlapResult.length report them at that moment, dispatched on the object's class - and changes nothing but names; the configured chromosome prefix is handed by the autosome_prefix setter to both of its users (the namer that builds <prefix>n and the statistics object that writes the CSV) and to nothing else, and the getter returns the namer's copy; ChrNamer starts empty with the prefix it is given, and add_scaffold appends (str(haplotype), scaffold) to the namer's own list, marks the haplotype in its own dictionary and touches nothing else. Bounded: when rename_by_size is called relative to cuts (known finding), uniqueness of names per assembly, chromosome numbering by size without holes, unloc/haplotig ranking, CSV. Known findings: C10-unloc-rank-precut-length, C10-unloc-number-hole, C10-unloc-only-chromosome-csv.",
     "level_note": PIPE_NOTE,
     "lemmas": [],
     "bounded": [("bounded.c10", {})],
